@@ -55,7 +55,7 @@ def generate(prop, seed, tier):
         G.add_onehot_terminals(spec, g)
     ops = []
     for i in range(g.randrange(4, 15)):
-        ops.append({'uid': i, 'op': g.choice(OPS), 'a': [g.randrange(1 << 16) for _ in range(6)]})
+        ops.append({'uid': i, 'op': g.choice(OPS + (['viterbi'] * 3 if vit else [])), 'a': [g.randrange(1 << 16) for _ in range(6)]})
     return {'engine': 'queryhist', 'prop': prop, 'seed': seed, 'spec': spec, 'vit': vit, 'ops': ops,
             'weights': {'requires_grad': g.random() < 0.6, 'views': g.random() < 0.4, 'dtype': 'float64'},
             'env': {'alloc': {'mode': g.choice(['order', 'reuse']), 'seed': seed}, 'axhash': seed, 'dtype': 'float64'}}
@@ -348,16 +348,60 @@ class Machine:
             # a query that must fail (start assignment out of range): it may raise, it must not leave anything behind
             asst = (shape[0] + a[4] % 2,) + asst[1:]
             self.c.inc('fault.must-fail-call.fired')
+        # iteration budget of the query: the default, or one that is likely to run out (an earlier starved query on the same
+        # object must not influence a later one)
+        kmax = [None, None, 1000, 2, 1][a[3] % 5]
+        opts = {} if kmax is None else {'kmax': kmax}
+
+        def weight_of(fg, assignment):
+            w = 0.0
+            for e in fg.edges():
+                wt = fg.factors[e.label.name].weights.to_dense()
+                idx = tuple(assignment[v] for v in e.nodes)
+                w += float(wt[idx]) if idx else float(wt)
+            return w
         before = self.snaps()
+        wgt = None
         try:
-            with recorded_warnings():
-                d = self.F.viterbi(g, asst)
+            with recorded_warnings() as ws:
+                d = self.F.viterbi(g, asst, **opts)
                 fg, assignment = d.derive()
             val = ('deriv', deriv_digest(d))
+            wgt = weight_of(fg, assignment)
+            starved = any('maximum iteration' in str(w.message) for w in ws)
         except Exception as ex:
             val = ('exc', type(ex).__name__)
         self.check_unchanged(before, 'viterbi')
-        self.record(('viterbi', id(g), asst), val)
+        self.record(('viterbi', id(g), asst, kmax), val)
+        if kmax is not None and kmax < 1000:
+            self.c.inc('fault.budget-cut.configured')
+        if kmax is not None and kmax < 1000:
+            # ... followed by the query with the default budget on the same object
+            opts = {}
+            wgt = None
+            try:
+                with recorded_warnings():
+                    d = self.F.viterbi(g, asst)
+                    fg, assignment = d.derive()
+                val = ('deriv', deriv_digest(d))
+                wgt = weight_of(fg, assignment)
+            except Exception as ex:
+                val = ('exc', type(ex).__name__)
+            self.check_unchanged(before, 'viterbi')
+            self.record(('viterbi', id(g), asst, None), val)
+            self.c.inc('probe.viterbi-after-starved-viterbi')
+        if wgt is not None and (a[4] % 2 == 0 or (kmax is not None and kmax < 1000)):
+            # the same query on a copy that has never been queried: same weight (tied derivations may differ)
+            try:
+                with recorded_warnings():
+                    d2 = self.F.viterbi(g.copy(), asst, **opts)
+                    fg2, as2 = d2.derive()
+                w2 = weight_of(fg2, as2)
+            except Exception as ex:
+                V('not-reproducible', ['viterbi', 'fresh-copy-raised', type(ex).__name__], f'viterbi{asst} succeeded on the queried grammar but raised {type(ex).__name__} on a fresh copy of it')
+            self.c.inc('probe.viterbi-vs-fresh-copy')
+            if abs(w2 - wgt) > 1e-9 * max(1.0, abs(w2)):
+                V('not-reproducible', ['viterbi', 'fresh-copy'], f'viterbi{asst} ({opts}): derivation of weight {wgt} on the grammar object queried before, {w2} on a fresh copy of it')
         return ('viterbi', val[0])
 
     def op_factorize_fgg(self, a, hrg=False):
